@@ -51,6 +51,10 @@ type Op struct {
 	// memtable is flushed into an on-disk table) or "compact" (NodeDB.Compact: Badger's physical
 	// garbage collection below the discard timestamp). Neither may change any answer.
 	Then string `json:"then,omitempty"`
+	// Live: commit through the runner's ONE long-lived mkvs tree object (created at the first live
+	// commit, then committing version after version) instead of a fresh NewWithRoot(old root): clean
+	// in-memory pointers of earlier versions stay in use.
+	Live bool `json:"live,omitempty"`
 }
 
 type Case struct {
@@ -231,6 +235,19 @@ func (b *recBatch) PutNode(ptr *node.Pointer) error {
 	return b.Batch.PutNode(ptr)
 }
 
+// VisitCleanNode: pathbadger may renumber and store a CLEAN node here (a former root node that
+// became a child, an attached leaf that became stand-alone: node.go:118-167) through its own
+// PutNode, which the wrapper does not see: detect it by the pointer's position changing.
+func (b *recBatch) VisitCleanNode(ptr *node.Pointer, parent *node.Pointer) error {
+	bv, bi, bok := ptrKey(ptr)
+	err := b.Batch.VisitCleanNode(ptr, parent)
+	if av, ai, aok := ptrKey(ptr); err == nil && aok && ai != 0 && (!bok || av != bv || ai != bi) {
+		b.db.putPos = append(b.db.putPos, [3]uint64{av, ai, uint64(len(b.db.putPos))})
+		b.db.putPosHash = append(b.db.putPosHash, ptr.Hash)
+	}
+	return err
+}
+
 func (b *recBatch) RemoveNodes(nodes []*node.Pointer) error {
 	for _, p := range nodes {
 		b.db.removed = append(b.db.removed, p.GetHash())
@@ -312,6 +329,7 @@ type opObs struct {
 	// node-level record (badger only)
 	puts, removed, reach, inl []int
 	resolveKnown, resolves bool // pathbadger, tainting commit: node resolution status of the new root
+	remPos [][2]int // pathbadger: positions the batch reported removed
 	tree [][3]int // pathbadger: (node version, index, node id) of the new root's stored nodes
 }
 
@@ -361,9 +379,12 @@ type runner struct {
 	// pathbadger: a child of a pending candidate that holds a non-zero pending sequence number was
 	// accepted (known finding finKeyPathPipe): every later answer of this backend may depend on
 	// misread nodes
+	rems     map[string][][2]int
 	trees    map[string][][3]int // pathbadger: "ver/rid" -> stored nodes of the root
 	lost     map[int]string // badger: node id -> finding key of the Finalize that deleted it while still in use
 	tainted  bool
+	live     mkvs.Tree // the long-lived tree of the "chain" profile
+	liveLast int       // name of the root it committed last
 	walkResolves bool // pathbadger: the last walkTree found every stored node resolvable to the expected node
 	seqCount map[string]int // "ver/typ" -> batches that reserved a sequence number
 	seqOf    map[string]int // "ver/rid" -> sequence number of the batch that created the root
@@ -416,7 +437,7 @@ func newRunner(kind string, pl *plan) (*runner, error) {
 		return nil, err
 	}
 	r := &runner{kind: kind, dir: dir, pl: pl, seen: map[string]bool{}, nodeID: map[hash.Hash]int{}, reach: map[int][]int{}, inl: map[int][]int{},
-		putAt: map[int]map[int]bool{}, stats: map[string]int{}, lastBad: map[string]bool{}, putsBy: map[string]map[int]bool{}, removedBy: map[string]map[int]bool{}, seqCount: map[string]int{}, seqOf: map[string]int{}, lost: map[int]string{}, trees: map[string][][3]int{}}
+		putAt: map[int]map[int]bool{}, stats: map[string]int{}, lastBad: map[string]bool{}, putsBy: map[string]map[int]bool{}, removedBy: map[string]map[int]bool{}, seqCount: map[string]int{}, seqOf: map[string]int{}, lost: map[int]string{}, trees: map[string][][3]int{}, rems: map[string][][2]int{}}
 	r.rec = &recDB{NodeDB: ndb}
 	r.ndb = r.rec
 	r.ref = refState{present: map[uint64]map[int]bool{}, derived: map[string][]int{}, finalized: map[uint64]bool{}}
@@ -430,15 +451,15 @@ func (r *runner) after(op Op) {
 			r.flag(fmt.Sprintf("%s: %s after %s(%d) panicked: %v", r.kind, op.Then, op.K, op.Ver, p))
 		}
 	}()
-	switch op.Then {
-	case "reopen":
+	if op.Then == "reopen" || op.Then == "reopen+compact" {
 		r.rec.NodeDB.Close()
 		ndb, err := openDB(r.kind, r.dir)
 		if err != nil {
 			panic(fmt.Sprintf("cannot reopen: %v", err))
 		}
 		r.rec.NodeDB = ndb
-	case "compact":
+	}
+	if op.Then == "compact" || op.Then == "reopen+compact" {
 		if err := r.ndb.Compact(); err != nil {
 			r.flag(fmt.Sprintf("%s: Compact after %s(%d): %v", r.kind, op.K, op.Ver, err))
 		}
@@ -446,6 +467,9 @@ func (r *runner) after(op Op) {
 }
 
 func (r *runner) close() {
+	if r.live != nil {
+		r.live.Close()
+	}
 	r.rec.NodeDB.Close()
 	os.RemoveAll(r.dir)
 }
@@ -670,11 +694,22 @@ func (r *runner) step(op Op) (o opObs) {
 		r.rec.puts, r.rec.removed, r.rec.putPos, r.rec.putPosHash, r.rec.remPos = nil, nil, nil, nil, nil
 		var t mkvs.Tree
 		var oi *rootInfo
-		if op.Old == 0 {
-			t = mkvs.New(nil, r.ndb, node.RootType(ri.typ))
-		} else {
+		if op.Old != 0 {
 			oi = r.pl.roots[op.Old]
-			t = mkvs.NewWithRoot(nil, r.ndb, oi.root())
+		}
+		switch {
+		case op.Live && r.live != nil && r.liveLast == op.Old && op.Old != 0:
+			t = r.live // the tree that committed the old root keeps going
+		default:
+			if r.live != nil && op.Live {
+				r.live.Close()
+				r.live = nil
+			}
+			if op.Old == 0 {
+				t = mkvs.New(nil, r.ndb, node.RootType(ri.typ))
+			} else {
+				t = mkvs.NewWithRoot(nil, r.ndb, oi.root())
+			}
 		}
 		var err error
 		for _, w := range op.Writes {
@@ -691,7 +726,14 @@ func (r *runner) step(op Op) (o opObs) {
 		if err == nil {
 			_, h, err = t.Commit(ctx, testNs, op.Ver)
 		}
-		t.Close()
+		if op.Live && err == nil {
+			r.live, r.liveLast = t, op.ID
+		} else {
+			t.Close()
+			if op.Live {
+				r.live = nil
+			}
+		}
 		o.class = classify(err)
 		if err != nil {
 			o.errText = err.Error()
@@ -758,10 +800,37 @@ func (r *runner) step(op Op) (o opObs) {
 		}
 		if r.kind == "pathbadger" {
 			if t, ok := r.trees[kk]; ok && !fresh {
-				o.tree = t
+				o.tree, o.remPos = t, r.rems[kk]
 			} else {
 				o.tree = r.walkTree(ri, oi)
+				// stand-alone copies of attached leaves written by this batch (not reachable through
+				// the serialized pointers, but stored, and referenced again by a long-lived tree when
+				// the leaf becomes stand-alone later)
+				have := map[[2]int]bool{}
+				for _, e := range o.tree {
+					have[[2]int{e[0], e[1]}] = true
+				}
+				for i, pp := range r.rec.putPos {
+					if k := [2]int{int(pp[0]), int(pp[1])}; !have[k] {
+						have[k] = true
+						o.tree = append(o.tree, [3]int{k[0], k[1], r.nid(r.rec.putPosHash[i])})
+					}
+				}
 				r.trees[kk] = o.tree
+				// removed positions: RemoveNodes, plus a clean node promoted to root node (its old
+				// location is marked removed inside VisitCleanNode, invisible to the wrapper)
+				for _, pp := range r.rec.remPos {
+					o.remPos = append(o.remPos, [2]int{int(pp[0]), int(pp[1])})
+				}
+				if oi != nil {
+					rootID := r.nid(ri.hash)
+					for _, e := range r.trees[vr(oi.ver, oi.rid)] {
+						if e[2] == rootID {
+							o.remPos = append(o.remPos, [2]int{e[0], e[1]})
+						}
+					}
+				}
+				r.rems[kk] = o.remPos
 				if r.tainted {
 					// the model predicts whether every node of the child RESOLVES; a complete iteration
 					// may by accident still return the right contents from misresolved nodes
@@ -1327,7 +1396,11 @@ func coqPOp(op Op, pl *plan, o opObs) string {
 		for i, e := range o.tree {
 			ts[i] = fmt.Sprintf("((%d, %d), %d)", e[0], e[1], e[2])
 		}
-		return fmt.Sprintf("PCommit %d %d %d %s %s %s", op.Ver, ri.typ, ri.rid, old, coqout.List(ws), coqout.List(ts))
+		rs := make([]string, len(o.remPos))
+		for i, e := range o.remPos {
+			rs[i] = fmt.Sprintf("(%d, %d)", e[0], e[1])
+		}
+		return fmt.Sprintf("PCommit %d %d %d %s %s %s %s", op.Ver, ri.typ, ri.rid, old, coqout.List(ws), coqout.List(ts), coqout.List(rs))
 	case "finalize":
 		var rs []int
 		for _, n := range op.Roots {
@@ -1440,8 +1513,11 @@ func genCase(r *prng.R, profile string) Case {
 	lag := r.Range(1, 3)
 	compaction := profile == "compaction"
 	if compaction {
-		profile = "common" // same shapes; every version is flushed to a table, every prune is followed by a compaction
+		// same shapes; every commit and every finalize is followed by a reopen (one on-disk table each,
+		// so that level 0 overflows and Badger really has levels to compact), every prune by a compaction
+		profile = "common"
 		lag = r.Range(2, 3)
+		nver = r.Range(6, 9)
 	}
 	then := func(kind string, pct int) string {
 		if compaction || r.Chance(pct) {
@@ -1477,6 +1553,9 @@ func genCase(r *prng.R, profile string) Case {
 				ws = append(ws, Write{Key: 6, Val: 1}) // the leaf k=v1 shared with the IO tree
 			}
 			id := g.commit(ver, 1, old, ws)
+			if compaction {
+				g.ops[len(g.ops)-1].Then = "reopen"
+			}
 			candS = append(candS, id)
 			if profile == "badger" && r.Chance(25) {
 				// same-version child root
@@ -1547,7 +1626,14 @@ func genCase(r *prng.R, profile string) Case {
 				preI = append(preI, g.commit(ver+1, 2, 0, []Write{{Key: 8, Val: r.Range(1, 2)}, {Key: r.Range(1, 7), Val: 1}}))
 			}
 		}
-		g.ops = append(g.ops, Op{K: "finalize", Ver: ver, Roots: fin, Then: then("reopen", 12)})
+		finThen := then("reopen", 12)
+		if compaction {
+			// flush, then consolidate: once level 0 holds more than five tables this pushes them down, so
+			// that the tables flushed afterwards and the older data sit on different levels and the
+			// Compact after the next Prune really rewrites them (Flatten is a no-op on a single level)
+			finThen = "reopen+compact"
+		}
+		g.ops = append(g.ops, Op{K: "finalize", Ver: ver, Roots: fin, Then: finThen})
 		keptIDs = append(keptIDs, fin...)
 		if profile == "errors" && r.Chance(30) {
 			g.ops = append(g.ops, Op{K: "finalize", Ver: ver, Roots: fin}) // already finalized
@@ -1616,6 +1702,118 @@ func (g *genState) errorOps(ver, earliest uint64, cands, pruned []int) {
 	case 6: // version gap
 		g.commit(ver+3, 1, cands[0], nil)
 	}
+}
+
+// genCompaction: a linear chain of finalized versions (one state candidate per version from a
+// fresh tree, every version overwriting and removing keys of the previous one, an occasional IO
+// root), every Finalize followed by a reopen (the version is flushed into an on-disk table),
+// pruning two versions behind, every Prune followed by NodeDB.Compact in the same process: the
+// shape in which Badger's physical GC below the discard timestamp really rewrites tables.
+func genCompaction(r *prng.R) Case {
+	g := &genState{r: r, conts: map[int]map[int]int{}, typOf: map[int]int{}, verOf: map[int]uint64{}}
+	start := uint64(r.Range(0, 1))
+	nver := r.Range(6, 10)
+	earliest := start
+	prev := 0
+	for vi := 0; vi < nver; vi++ {
+		ver := start + uint64(vi)
+		cur := map[int]int{}
+		for k, v := range g.conts[prev] {
+			cur[k] = v
+		}
+		var ws []Write
+		for i, n := 0, r.Range(2, 4); i < n; i++ {
+			k := r.Range(1, 8)
+			v := r.Range(1, 2)
+			if old, ok := cur[k]; ok && old == v {
+				v = 3 - v // overwrite with the other value
+			}
+			ws = append(ws, Write{Key: k, Val: v})
+			cur[k] = v
+		}
+		if ks := sortedKeys(cur); len(ks) > 2 && r.Chance(70) {
+			k := ks[r.Intn(len(ks))]
+			ws = append(ws, Write{Key: k, Val: 0})
+			delete(cur, k)
+		}
+		id := g.commit(ver, 1, prev, ws)
+		if r.Chance(40) {
+			g.ops[len(g.ops)-1].Then = "reopen"
+		}
+		fin := []int{id}
+		if r.Chance(40) {
+			fin = append(fin, g.commit(ver, 2, 0, []Write{{Key: 8, Val: r.Range(1, 2)}, {Key: r.Range(1, 7), Val: 1}}))
+		}
+		g.ops = append(g.ops, Op{K: "finalize", Ver: ver, Roots: fin, Then: "reopen"})
+		prev = id
+		for ver >= earliest+2 {
+			g.ops = append(g.ops, Op{K: "prune", Ver: earliest, Then: "compact"})
+			earliest++
+		}
+	}
+	return Case{Profile: "compaction", Ops: g.ops}
+}
+
+// genChain: ONE long-lived state tree commits version after version (every version finalized with
+// it), over the prefix keys a / ab / abc / b / ba so that stand-alone leaves become attached
+// leaves of new internal nodes and back; an IO root per version from scratch; competitors from
+// fresh trees that are discarded; prune lag 1-3; occasional reopen / compact.
+func genChain(r *prng.R) Case {
+	g := &genState{r: r, conts: map[int]map[int]int{}, typOf: map[int]int{}, verOf: map[int]uint64{}}
+	start := uint64(r.Range(0, 2))
+	nver := r.Range(3, 9)
+	lag := r.Range(1, 3)
+	earliest := start
+	prev := 0
+	for vi := 0; vi < nver; vi++ {
+		ver := start + uint64(vi)
+		var ws []Write
+		cur := map[int]int{}
+		for k, v := range g.conts[prev] {
+			cur[k] = v
+		}
+		for i, n := 0, r.Range(1, 3); i < n; i++ {
+			k := r.Range(1, 5) // a ab abc b ba
+			if r.Chance(15) {
+				k = r.Range(6, 8)
+			}
+			if _, ok := cur[k]; ok && r.Chance(55) {
+				ws = append(ws, Write{Key: k, Val: 0})
+				delete(cur, k)
+			} else {
+				v := r.Range(1, 2)
+				ws = append(ws, Write{Key: k, Val: v})
+				cur[k] = v
+			}
+		}
+		if len(cur) == 0 {
+			ws = append(ws, Write{Key: 1, Val: 1})
+		}
+		id := g.commit(ver, 1, prev, ws)
+		g.ops[len(g.ops)-1].Live = true
+		fin := []int{id}
+		if prev != 0 && r.Chance(30) {
+			g.commit(ver, 1, prev, []Write{{Key: r.Range(1, 5), Val: r.Range(1, 2)}, {Key: r.Range(1, 8), Val: 0}}) // discarded competitor, fresh tree
+		}
+		if r.Chance(50) {
+			fin = append(fin, g.commit(ver, 2, 0, []Write{{Key: 8, Val: r.Range(1, 2)}, {Key: r.Range(1, 3), Val: 1}}))
+		}
+		then := ""
+		if r.Chance(15) {
+			then = "reopen"
+		}
+		g.ops = append(g.ops, Op{K: "finalize", Ver: ver, Roots: fin, Then: then})
+		prev = id
+		for ver >= earliest+uint64(lag) {
+			then = ""
+			if r.Chance(30) {
+				then = "compact"
+			}
+			g.ops = append(g.ops, Op{K: "prune", Ver: earliest, Then: then})
+			earliest++
+		}
+	}
+	return Case{Profile: "chain", Ops: g.ops}
 }
 
 // section-9 history: state {k,x} and io {k,y} finalized in version 1 (shared leaf k),
@@ -1771,8 +1969,16 @@ func main() {
 	} else {
 		cases = append(cases, knownDefectCase())
 		r := prng.New(*seed)
-		profiles := []string{"common", "common", "badger", "errors", "compaction"}
+		profiles := []string{"common", "chain", "badger", "errors", "compaction", "common"}
 		for i := 0; i < *n; i++ {
+			if profiles[i%len(profiles)] == "compaction" {
+				cases = append(cases, genCompaction(r.Fork()))
+				continue
+			}
+			if profiles[i%len(profiles)] == "chain" {
+				cases = append(cases, genChain(r.Fork()))
+				continue
+			}
 			cases = append(cases, genCase(r.Fork(), profiles[i%len(profiles)]))
 		}
 	}
